@@ -35,9 +35,9 @@ DecViol(ev) ==
    IN  (IF ev.rc = 0 /\ ev.match # 1 /\ ~Damaged(ev) THEN {"C02 success with wrong bytes"} ELSE {})
    \cup (IF ~Damaged(ev) /\ Tolerated(ev, missing) /\ ~ok /\ ~(ev.rc < 0 /\ RefusalExcused(ev, missing))
          THEN {"C01 tolerated erasure set not decoded"} ELSE {})
-   \cup (IF Damaged(ev) /\ ev.force = 1 /\ ev.ct = 2 /\ ev.rc = 0 /\ ev.match # 1
+   \cup (IF Damaged(ev) /\ ev.force # 0 /\ ev.ct = 2 /\ ev.rc = 0 /\ ev.match # 1
          THEN {"C20 forced checks: invalid fragment changed the result"} ELSE {})
-   \cup (IF Damaged(ev) /\ ev.force = 1 /\ ev.ct = 2 /\ Tolerated(ev, MissingOf(ev, ValidIdx(ev))) /\ ~ok
+   \cup (IF Damaged(ev) /\ ev.force # 0 /\ ev.ct = 2 /\ Tolerated(ev, MissingOf(ev, ValidIdx(ev))) /\ ~ok
             /\ ~(ev.rc < 0 /\ RefusalExcused(ev, MissingOf(ev, ValidIdx(ev))))
          THEN {"C20 forced checks: valid fragments suffice but decode failed"} ELSE {})
    \cup (IF ev.unch # 1 THEN {"C15 input fragment modified"} ELSE {})
